@@ -660,8 +660,9 @@ def c06(tier, seed):
                         pei=rbytes(rng, rng.randrange(3)), sc=rng.choice([0, 1]) if w < 256 and h < 256 else 1)
         H.decode(pg.intra_picture(rng, hdr, big=False, shape="one"))
         H.op("newreader")
-        H.decode(pg.inter_picture(rng, pg.header("sor", rng.choice(["P", "D"]), tr=rng.randrange(256), q=rng.randrange(1, 32), w=w, h=h,
-                                                 ver=ver, db=rng.randrange(2)), pt=None or "P", big=False, shape="one"))
+        pt2 = rng.choice(["P", "D"])
+        H.decode(pg.inter_picture(rng, pg.header("sor", pt2, tr=rng.choice([hdr["tr"], hdr["tr"], rng.randrange(256)]), q=rng.randrange(1, 32),
+                                                 w=w, h=h, ver=ver, db=rng.randrange(2)), pt=pt2, big=False, shape="one"))
     # extreme aspect ratios of the 16-bit size code (opaque mode: outcome, shapes and the reported size are checked)
     for (w, h) in [(65535, 1), (1, 65535), (65521, 16), (65520, 1), (16, 65521), (4095, 17), (32768, 2)]:
         H.new()
@@ -767,6 +768,24 @@ def c11(tier, seed):
             p["mbs"] = [mb1, mb2]
             H.new()
             H.decode(p)
+    # the clamped value is what is carried on: all 31 x 4 x 4 two-step update sequences (three macroblocks)
+    for q in range(1, 32):
+        for dq1 in (-2, -1, 1, 2):
+            for dq2 in (-2, -1, 1, 2):
+                if tier == "quick" and not (q <= 4 or q >= 28 or (q + dq1 + dq2) % 5 == 0):
+                    continue
+                ver = (q + dq1) % 2
+                hdr = pg.header("sor", "I", tr=1, q=q, w=48, h=16, ver=ver)
+                p = dict(hdr)
+                mbs = [pg.coded_mb(rng, 4, ver == 1, cbpc=0, cbpy=0, dq=dq1, big=False), pg.coded_mb(rng, 4, ver == 1, cbpc=0, cbpy=8, dq=dq2, big=False),
+                       pg.coded_mb(rng, 3, ver == 1, cbpc=3, cbpy=15, big=False)]
+                for m in mbs[1:]:
+                    for b in m["b"]:
+                        if b["ev"]:
+                            b["ev"] = [[1, rng.randrange(0, 10), rng.choice([-9, 7, 12]), 1]]
+                p["mbs"] = mbs
+                H.new()
+                H.decode(p)
     # INTRADC: every valid code decodes to 8 x code (255 -> 1024); codes 0 and 128 must be rejected
     codes = [c for c in range(1, 256) if c != 128]
     for i in range(0, len(codes), 6):
@@ -889,6 +908,48 @@ def c10(tier, seed):
                     c[8 * rng.randrange(1, 8)] = -1
                 blocks.append({"k": kind, "c": c})
             cmds.append({"op": "idct", "set": "first-%s-only" % ("row" if kind == "horiz" else "column"), "blocks": blocks})
+    # every support pattern of the first row / first column (255 each) and, for dense blocks, every row pattern placed in a
+    # single row, in every row, or transposed into a column: shortcuts keyed on "which coefficients are zero" are all reached
+    amps = lambda: rng.choice([1, 7, 100, 2047]) * rng.choice([1, -1])
+    pat_blocks = {"horiz": [], "vert": [], "full": []}
+    for pat in range(1, 256):
+        idx = [k for k in range(8) if (pat >> k) & 1]
+        for rep in range(2 if tier == "quick" else 8):
+            c = [0] * 64
+            for k in idx:
+                c[k] = amps()
+            if any(c[1:8]):
+                pat_blocks["horiz"].append({"k": "horiz", "c": list(c)})
+            cv = [0] * 64
+            for k in idx:
+                cv[8 * k] = amps()
+            if any(cv[8 * k] for k in range(1, 8)):
+                pat_blocks["vert"].append({"k": "vert", "c": cv})
+            for rows in ([rng.randrange(1, 8)], [0, rng.randrange(1, 8)], list(range(8))):
+                cf = [0] * 64
+                for r_ in rows:
+                    for k in idx:
+                        cf[8 * r_ + k] = amps()
+                if any(cf[8:]) and any(cf[i] for i in range(64) if i % 8):
+                    pat_blocks["full"].append({"k": "full", "c": cf})
+                ct = [0] * 64
+                for r_ in rows:
+                    for k in idx:
+                        ct[8 * k + r_] = amps()
+                if any(ct[8:]) and any(ct[i] for i in range(64) if i % 8):
+                    pat_blocks["full"].append({"k": "full", "c": ct})
+    for pos in range(64):          # a single coefficient at every position, alone and over a DC
+        for v in (1, -3, 2047, -2048):
+            c = [0] * 64
+            c[pos] = v
+            k = "zero" if not any(c) else ("dc" if pos == 0 else "horiz" if pos < 8 else "vert" if pos % 8 == 0 else "full")
+            pat_blocks.setdefault(k, []).append({"k": k, "c": c})
+            if pos and pos >= 8 and pos % 8:
+                c2 = list(c); c2[0] = 1024
+                pat_blocks["full"].append({"k": "full", "c": c2})
+    for kind, bl in pat_blocks.items():
+        for i in range(0, len(bl), 100):
+            cmds.append({"op": "idct", "set": "support-patterns-%s" % kind, "blocks": bl[i:i + 100]})
     rng.shuffle(cmds)
     run.drive_and_validate(cmds, "TraceRecon", sample=1)
     # add the per-shard sums (plain addition) and let TLC take the Annex A verdict
@@ -907,7 +968,9 @@ def c10(tier, seed):
             run.tool_errors.append("Annex A set %s has %d blocks, expected 10000" % (k, v["n"]))
     if annex:
         sp = os.path.join(run.work, "stats.json")
-        json.dump(annex, open(sp, "w"))
+        cap = lambda x: max(-30000000, min(30000000, x))         # keep sums inside TLC's integers when errors are enormous
+        json.dump({k: {"n": v["n"], "peak": v["peak"], "se": [cap(x) for x in v["se"]], "se2": [cap(x) for x in v["se2"]]}
+                   for k, v in annex.items()}, open(sp, "w"))
         r = core.run_tlc("AnnexAVerdict", env={"STATS": sp}, workdir=run.work)
         run.states += r.distinct
         run.transitions += r.generated
@@ -947,7 +1010,17 @@ def split_threads(evs):
             for x in inst:
                 x["ci"] = e.get("ci")
                 out.append(x)
-        groups = [[[x["digest"] for x in e["evs"][i]] for i in g] for g in e["groups"]]
+        def per_tag(evs_):          # the digest of the last observation of every picture (a retried delivery ends like a single one)
+            last = {}
+            for x in evs_:
+                if x.get("op") in ("decode", "cleanup") and x.get("tag", -1) >= 0:
+                    last[x["tag"]] = x["digest"]
+            return [last[k] for k in sorted(last)]
+        def comparable(evs_):       # a first part that ends at a macroblock boundary is accepted as an early-ended picture (by
+            #                         design): such a delivery is not "the same bytes in two parts followed by a retry"
+            return not any(x.get("why") == "split-first-part" and x.get("rc") == "ok" for x in evs_)
+        groups = [[per_tag(e["evs"][i]) for i in g if comparable(e["evs"][i])] for g in e["groups"]]
+        groups = [g for g in groups if len(g) >= 2]
         out.append({"op": "replicas", "groups": groups, "mode": e.get("mode", ""), "ci": e.get("ci"), "ret": e["ret"]})
     return out
 
@@ -988,20 +1061,27 @@ def c17(tier, seed):
     enc = run.encode(flat)
     byk = {(c["pool"], c["inst"], c["k"]): c for c in enc}
 
-    def inst_cmds(pi, ii, maxread=0):
-        # replicas may get the same bytes handed out in different piece sizes: the result must not depend on it
-        out = [{"op": "new", "d": 0, "sor": True, "maxread": maxread}]
+    def inst_cmds(pi, ii, maxread=0, split=False):
+        # replicas may get the same bytes handed out in different piece sizes, or in two deliveries with a failed attempt in
+        # between (split): the result must not depend on it.  "tag" = index of the picture the command belongs to.
+        out = [{"op": "new", "d": 0, "sor": True, "maxread": maxread, "tag": -1}]
         for k, (t, pic) in enumerate(pools[pi][ii]):
-            out.append({"op": "newreader", "d": 0})
+            out.append({"op": "newreader", "d": 0, "tag": k})
             if pic is None:
-                out.append({"op": "decode", "d": 0, "bytes": GARBAGE[0], "why": "garbage"})
-            else:
-                c = byk[(pi, ii, k)]
-                d_ = {"op": "decode", "d": 0, "pic": c["pic"], "bytes": c["bytes"]}
-                if "opaque" in c:
-                    d_["opaque"] = True
-                    d_["why"] = c["why"]
-                out.append(d_)
+                out.append({"op": "decode", "d": 0, "bytes": GARBAGE[0], "why": "garbage", "tag": k})
+                continue
+            c = byk[(pi, ii, k)]
+            d_ = {"op": "decode", "d": 0, "pic": c["pic"], "bytes": c["bytes"], "tag": k}
+            if "opaque" in c:
+                d_["opaque"] = True
+                d_["why"] = c["why"]
+            if split and "opaque" not in c and len(c["bytes"]) > 4:
+                cut = rng.randrange(1, len(c["bytes"]))
+                out.append({"op": "append", "d": 0, "bytes": c["bytes"][:cut], "tag": k})
+                out.append({"op": "decode", "d": 0, "bytes": [], "pre": True, "why": "split-first-part", "tag": k})
+                out.append({"op": "append", "d": 0, "bytes": c["bytes"][cut:], "tag": k})
+                d_["pre"] = True
+            out.append(d_)
         return out
     cmds = []
     # (b) every interleaving TLC produced, forced by a turnstile.  A call = newreader + decode (2 driver ops) after "new"
@@ -1025,7 +1105,7 @@ def c17(tier, seed):
     # (c) free-running threads: 16 instances, replicas of 4 histories, repeated
     for rep in range(12 if tier == "quick" else 200):
         pi = rep % len(pools)
-        insts = [inst_cmds(pi, (k % 4) if (k % 4) < 3 else 0, maxread=(k // 4) % 4) for k in range(16)]
+        insts = [inst_cmds(pi, (k % 4) if (k % 4) < 3 else 0, maxread=(k // 4) % 4, split=(k % 8 == 3)) for k in range(16)]
         groups = [[k for k in range(16) if (k % 4 if k % 4 < 3 else 0) == gsel] for gsel in range(3)]
         groups = [[k for k in range(16) if (k % 4) in (0, 1, 3)], [k for k in range(16) if k % 4 == 2]]
         cmds.append({"op": "threads", "insts": insts, "groups": groups, "mode": "free-running", "h": len(cmds)})
